@@ -120,24 +120,25 @@ Proof.
   destruct (c_auth c') eqn:Ha; try discriminate. intros [= <-]. eauto.
 Qed.
 
-Lemma assertion_proves v c :
-  assertion_client cf v = inl c -> find_client cf (c_id c) = Some c /\ cred_proves cf (Assertion v) (c_id c) = true /\ is_public c = false.
+Lemma assertion_proves cr v c :
+  cr_assert cr = Some v ->
+  assertion_client cf v = inl c -> find_client cf (c_id c) = Some c /\ cred_proves cf cr (c_id c) = true /\ is_public c = false.
 Proof.
-  intro Ha. apply assertion_client_inl in Ha as [iss [-> [Hf Hauth]]].
+  intros Hcr Ha. apply assertion_client_inl in Ha as [iss [-> [Hf Hauth]]].
   apply find_client_id in Hf as [Hid Hf]. split; [exact Hf|].
-  unfold cred_proves, is_public. rewrite Hf, Hauth. subst iss. split; [apply String.eqb_refl | reflexivity].
+  unfold cred_proves, is_public. rewrite Hf, Hauth, Hcr. subst iss. split; [apply String.eqb_refl | reflexivity].
 Qed.
 
-(* a non-assertion credential resolved to client c by id (+ secret unless public) *)
+(* without an assertion, the parsed (id, secret) resolved to client c (+ secret unless public) *)
 Lemma presented_proves cr id sec c :
-  cred_id_sec cr = (id, sec) -> (forall v, cr <> Assertion v) ->
+  cr_assert cr = None -> cred_id_sec cr = (id, sec) ->
   find_client cf id = Some c ->
   (c_auth c = AM_None \/ ((c_auth c = AM_Basic \/ c_auth c = AM_Post) /\ String.eqb sec (c_secret c) = true)) ->
   cred_proves cf cr (c_id c) = true.
 Proof.
-  intros Hcs Hna Hf Hk. apply find_client_id in Hf as [Hid Hf]. unfold cred_proves. rewrite Hf.
+  intros Hna Hcs Hf Hk. apply find_client_id in Hf as [Hid Hf]. unfold cred_proves. rewrite Hf.
   assert (Hp : presented cr = Some (id, sec)).
-  { destruct cr; cbn in *; try (inversion Hcs; subst; reflexivity). exfalso. now apply (Hna v). }
+  { unfold presented. rewrite Hna. unfold cred_id_sec in Hcs. now rewrite Hcs. }
   rewrite Hp, Hid, String.eqb_refl.
   destruct Hk as [-> | [[-> | ->] ->]]; reflexivity.
 Qed.
@@ -147,37 +148,37 @@ Lemma prov_code_client_inl q cr c :
   find_client cf (c_id c) = Some c /\ cred_proves cf cr (c_id c) = true /\ (is_public c = true -> q_chal q <> None).
 Proof.
   unfold prov_code_client.
-  destruct cr as [|id sec|id sec|v].
-  4:{ destruct (f_pkjwt cf); [|discriminate]. intro Ha. apply assertion_proves in Ha as [Hf [Hp Hpub]].
-      repeat split; auto. rewrite Hpub. discriminate. }
-  all: cbn [cred_id_sec].
-  all: match goal with |- context [find_client cf ?i] => destruct (find_client cf i) as [c'|] eqn:Hf; [|discriminate] end.
-  all: pose proof (proj2 (find_client_id _ _ Hf)) as Hf2.
-  all: destruct (c_auth c') eqn:Hauth; try discriminate.
-  all: try (destruct (secret_ok cf c' _) eqn:Hs; [discriminate|]; intros [= <-]; apply secret_ok_eq in Hs;
-            split; [exact Hf2|]; split;
-            [eapply presented_proves; [reflexivity | intros v; discriminate | exact Hf | right; split; [auto | exact Hs]]
-            | unfold is_public; rewrite Hauth; discriminate]).
-  all: destruct (q_chal q) eqn:Hq; [|discriminate]; intros [= <-]; split; [exact Hf2|]; split;
-       [eapply presented_proves; [reflexivity | intros v; discriminate | exact Hf | now left] | discriminate].
+  destruct (cr_assert cr) as [v|] eqn:Hcr.
+  { destruct (f_pkjwt cf); [|discriminate]. intro Ha. apply (assertion_proves cr) in Ha as [Hf [Hp Hpub]]; auto.
+    repeat split; auto. rewrite Hpub. discriminate. }
+  destruct (cred_id_sec cr) as [id sec] eqn:Hcs.
+  destruct (find_client cf id) as [c'|] eqn:Hf; [|discriminate].
+  pose proof (proj2 (find_client_id _ _ Hf)) as Hf2.
+  destruct (c_auth c') eqn:Hauth; try discriminate.
+  1,2: destruct (secret_ok cf c' sec) eqn:Hs; [discriminate|]; intros [= <-]; apply secret_ok_eq in Hs;
+       split; [exact Hf2|]; split;
+       [eapply presented_proves; [exact Hcr | exact Hcs | exact Hf | right; split; [auto | exact Hs]]
+       | unfold is_public; rewrite Hauth; discriminate].
+  destruct (q_chal q) eqn:Hq; [|discriminate]. intros [= <-]. split; [exact Hf2|]. split;
+    [eapply presented_proves; [exact Hcr | exact Hcs | exact Hf | now left] | discriminate].
 Qed.
 
 Lemma legacy_client_inl cr c :
   legacy_client cf cr = inl c -> find_client cf (c_id c) = Some c /\ cred_proves cf cr (c_id c) = true.
 Proof.
   unfold legacy_client.
-  destruct cr as [|id sec|id sec|v].
-  4:{ destruct (f_pkjwt cf); [|discriminate]. intro Ha. apply assertion_proves in Ha as [Hf [Hp _]]. auto. }
-  all: cbn [cred_id_sec].
-  all: match goal with |- context [String.eqb ?i ""] => destruct (String.eqb i ""); [discriminate|] end.
-  all: match goal with |- context [find_client cf ?i] => destruct (find_client cf i) as [c'|] eqn:Hf; [|discriminate] end.
-  all: pose proof (proj2 (find_client_id _ _ Hf)) as Hf2.
-  all: destruct (c_auth c') eqn:Hauth; try discriminate.
-  all: try (destruct (secret_ok cf c' _) eqn:Hs; [discriminate|]; intros [= <-]; apply secret_ok_eq in Hs;
-            split; [exact Hf2|];
-            eapply presented_proves; [reflexivity | intros v; discriminate | exact Hf | right; split; [auto | exact Hs]]).
-  all: intros [= <-]; split; [exact Hf2|];
-       eapply presented_proves; [reflexivity | intros v; discriminate | exact Hf | now left].
+  destruct (cr_assert cr) as [v|] eqn:Hcr.
+  { destruct (f_pkjwt cf); [|discriminate]. intro Ha. apply (assertion_proves cr) in Ha as [Hf [Hp _]]; auto. }
+  destruct (cred_id_sec cr) as [id sec] eqn:Hcs.
+  destruct (String.eqb id ""); [discriminate|].
+  destruct (find_client cf id) as [c'|] eqn:Hf; [|discriminate].
+  pose proof (proj2 (find_client_id _ _ Hf)) as Hf2.
+  destruct (c_auth c') eqn:Hauth; try discriminate.
+  1,2: destruct (secret_ok cf c' sec) eqn:Hs; [discriminate|]; intros [= <-]; apply secret_ok_eq in Hs;
+       split; [exact Hf2|];
+       eapply presented_proves; [exact Hcr | exact Hcs | exact Hf | right; split; [auto | exact Hs]].
+  intros [= <-]. split; [exact Hf2|].
+  eapply presented_proves; [exact Hcr | exact Hcs | exact Hf | now left].
 Qed.
 
 Lemma prov_refresh_client_inl cr c :
@@ -185,20 +186,20 @@ Lemma prov_refresh_client_inl cr c :
   find_client cf (c_id c) = Some c /\ cred_proves cf cr (c_id c) = true /\ c_refresh c = true.
 Proof.
   unfold prov_refresh_client.
-  destruct cr as [|id sec|id sec|v].
-  4:{ destruct (f_pkjwt cf); [|discriminate]. destruct (assertion_client cf v) as [c'|] eqn:Ha; [|discriminate].
-      destruct (c_refresh c') eqn:Hr; [|discriminate]. intros [= <-].
-      apply assertion_proves in Ha as [Hf [Hp _]]. auto. }
-  all: cbn [cred_id_sec].
-  all: match goal with |- context [find_client cf ?i] => destruct (find_client cf i) as [c'|] eqn:Hf; [|discriminate] end.
-  all: pose proof (proj2 (find_client_id _ _ Hf)) as Hf2.
-  all: destruct (c_refresh c') eqn:Hr; cbn [negb]; [|discriminate].
-  all: destruct (c_auth c') eqn:Hauth; try discriminate.
-  all: try (destruct (secret_ok cf c' _) eqn:Hs; [discriminate|]; intros [= <-]; apply secret_ok_eq in Hs;
-            split; [exact Hf2|]; split; [|exact Hr];
-            eapply presented_proves; [reflexivity | intros v; discriminate | exact Hf | right; split; [auto | exact Hs]]).
-  all: intros [= <-]; split; [exact Hf2|]; split; [|exact Hr];
-       eapply presented_proves; [reflexivity | intros v; discriminate | exact Hf | now left].
+  destruct (cr_assert cr) as [v|] eqn:Hcr.
+  { destruct (f_pkjwt cf); [|discriminate]. destruct (assertion_client cf v) as [c'|] eqn:Ha; [|discriminate].
+    destruct (c_refresh c') eqn:Hr; [|discriminate]. intros [= <-].
+    apply (assertion_proves cr) in Ha as [Hf [Hp _]]; auto. }
+  destruct (cred_id_sec cr) as [id sec] eqn:Hcs.
+  destruct (find_client cf id) as [c'|] eqn:Hf; [|discriminate].
+  pose proof (proj2 (find_client_id _ _ Hf)) as Hf2.
+  destruct (c_refresh c') eqn:Hr; cbn [negb]; [|discriminate].
+  destruct (c_auth c') eqn:Hauth; try discriminate.
+  1,2: destruct (secret_ok cf c' sec) eqn:Hs; [discriminate|]; intros [= <-]; apply secret_ok_eq in Hs;
+       split; [exact Hf2|]; split; [|exact Hr];
+       eapply presented_proves; [exact Hcr | exact Hcs | exact Hf | right; split; [auto | exact Hs]].
+  intros [= <-]. split; [exact Hf2|]. split; [|exact Hr].
+  eapply presented_proves; [exact Hcr | exact Hcs | exact Hf | now left].
 Qed.
 
 Lemma pkce_pass ch ver : pkce H ch ver = None -> exists c, ch = Some c /\ chal_ok H c ver = true.
